@@ -809,6 +809,88 @@ def run(ctx):
                 break
     ctx.count("history:module-arrays-scanned", len(modstate))
 
+    # ---- copy semantics: the caller's array after the call, over argument forms x options x histories ----------
+    # model: QEModel.C02 `worksInPlace` / `argAfter` / `gthCalls` (op `gthow`): in place exactly for a C-contiguous float64
+    # ndarray (subclasses included) with overwrite=True; otherwise the argument is left as it was.
+    class _Sub(np.ndarray):
+        pass
+
+    def ow_forms(V):
+        nloc = V.shape[0]
+
+        def strided():
+            big = np.zeros((2 * nloc, 3 * nloc))
+            big[::2, ::3] = V
+            return big[::2, ::3]
+
+        def rowslice():
+            big = np.zeros((nloc + 2, nloc))
+            big[1:nloc + 1] = V
+            return big[1:nloc + 1]
+        return {"C": lambda: np.array(V, order="C"), "F": lambda: np.array(V, order="F"), "strided": strided,
+                "rowslice-view": rowslice, "negstride": lambda: np.ascontiguousarray(V[::-1, ::-1])[::-1, ::-1],
+                "matrix": lambda: np.matrix(V), "subclass": lambda: np.array(V).view(_Sub),
+                "float32": lambda: V.astype(np.float32), "list": lambda: V.tolist()}
+
+    def mk_ow_cmp(jit):
+        def cmp(mo, impl):
+            if impl.startswith("ERR") or mo.startswith("ERR"):
+                return None if mo == impl else "error kinds differ"
+            pm = dict(p_.split("=", 1) for p_ in mo.split(" "))
+            pi_ = dict(p_.split("=", 1) for p_ in impl.split(" "))
+            if pm["A"] != pi_["A"]:
+                return "contents of the caller's array after the call differ from the model's argAfter"
+            if jit and pm["x"] != pi_["x"]:
+                return "result of the last call differs in bits"
+            return None
+        return cmp
+
+    for it in range(ctx.n(30, 200)):
+        n = rng.randint(1, nmax) if it % 5 else 1
+        if it % 3 == 0:
+            V = to_np(g.metzler(n))
+        else:
+            Fr, _, _ = g.chain(n, style=rng.choice(["dyadic", "int"]))
+            V = to_np(Fr)
+        forms = ow_forms(V)
+        for name in ["C"] + rng.sample([k for k in forms if k != "C"], ctx.n(3, 5)):
+            if name == "float32":
+                V_used = V.astype(np.float32).astype(float)
+            else:
+                V_used = V
+            for ow in (False, True):
+                jit = rng.random() < 0.6
+                reps = rng.choice([1, 1, 2, 3])
+                obj = forms[name]()
+                isnd = isinstance(obj, np.ndarray)
+                f64 = bool(isnd and obj.dtype == np.float64)
+                cc = bool(isnd and obj.flags.c_contiguous)
+                with _warnings.catch_warnings():
+                    _warnings.simplefilter("ignore")
+                    for _ in range(reps):
+                        x = gth_solve(obj, overwrite=ow, use_jit=jit)
+                after = np.array(obj, dtype=float)
+                inplace = not np.array_equal(bits_of(after), bits_of(np.ascontiguousarray(V_used)))
+                ctx.count("copy-semantics:%s:overwrite=%s:%s" % (name, ow, "modified" if inplace else "untouched"))
+                if inplace and not ow:
+                    ctx.spec_fail("gth_argument_modified", "gth_solve(<%s>, overwrite=False) modified its argument" % name,
+                                  {"A": fxm(V_used), "form": name, "use_jit": jit, "reps": reps})
+                cases.append(Case("C02 gthow n=%d ow=%d nd=%d f64=%d cc=%d reps=%d A=%s" % (
+                    n, int(ow), int(isnd), int(f64), int(cc), reps, fxm(V_used)),
+                    "x=%s A=%s" % (fxs(x), fxm(after)), nontrivial=(n >= 3 and ow), cmp=mk_ow_cmp(jit),
+                    tag="gthow:" + ("inplace" if (ow and isnd and f64 and cc) else "copy")))
+    for it in range(ctx.n(4, 12)):                     # malformed: non-square in the in-place mode
+        n = rng.randint(2, 4)
+        B = np.full((n, n + 1), 1.0 / (n + 1))
+        try:
+            gth_solve(B, overwrite=True)
+            out = "no-error"
+        except ValueError:
+            out = "ERR:ValueError"
+        ctx.count("copy-semantics:nonsquare:" + out)
+        cases.append(Case("C02 gthow n=%d ow=1 nd=1 f64=1 cc=1 reps=1 A=%s" % (n, fxm(B)), out, nontrivial=False,
+                          tag="gthow:malformed"))
+
     # ---- malformed -------------------------------------------------------------------------------------
     def err_of(f):
         try:
